@@ -445,7 +445,7 @@ class Engine:
             st.assume(c == v.t)
             return VList(c, v.et, v.kind)
         if isinstance(v, VTuple):
-            return VTuple([self.named(st, x, hint) for x in v.items])
+            return VTuple([self.named(st, x, hint) for x in v.items], is_list=getattr(v, "is_list", False))
         return v
 
     def as_int(self, st, v, node=None):
@@ -1071,7 +1071,12 @@ class Engine:
                     return [(st, base.items[k])]
                 self.throw(st, "IndexError", node, "tuple index")
                 return []
-            raise Unsupported("symbolic index into a static tuple")
+            kinds = {type(x) for x in base.items}
+            if len(kinds) == 1 and all(isinstance(x, VSeq) for x in base.items) and len({x.kind for x in base.items}) == 1:
+                # homogeneous static table indexed symbolically: use the boxed list
+                base = VList(mk_vsq([box(x) for x in base.items]), base.items[0].kind, "list")
+            else:
+                raise Unsupported("symbolic index into a static tuple")
         if isinstance(base, VSeq):
             i = self.as_int(st, iv, node)
             L = IS.len(base.t)
